@@ -7,12 +7,12 @@ cd $W || exit 9
 git checkout -q -- . ; git clean -fdq -e target; git checkout -q --detach $(git -C /repo rev-parse HEAD)
 mkdir -p $CRATE/tests; cp $O/seed_demo.rs $CRATE/tests/seed_demo.rs
 echo "== clean tree: demo must pass"
-cargo test -p $CRATE --offline --test seed_demo 2>&1 | grep -E "^test result|error(\[|:)" | head -3
+RUSTFLAGS="${SEED_RUSTFLAGS:-}" cargo test -p $CRATE --offline --test seed_demo 2>&1 | grep -E "^test result|error(\[|:)" | head -3
 git apply $O/patch.diff || { echo "PATCH DOES NOT APPLY"; exit 8; }
 echo "== patched: existing suite must pass"
 cargo test --workspace --offline --lib 2>&1 | grep -E "^test result" | sort | uniq -c
 echo "== patched: demo must fail"
-cargo test -p $CRATE --offline --test seed_demo 2>&1 | grep -E "^test result|error(\[|:)" | head -3
+RUSTFLAGS="${SEED_RUSTFLAGS:-}" cargo test -p $CRATE --offline --test seed_demo 2>&1 | grep -E "^test result|error(\[|:)" | head -3
 rm -f $CRATE/tests/seed_demo.rs
 echo "== overlay (patched worktree): ./check $P"
 (cd /verif && VERIF_REPO=$W ./check $P 2>&1 | grep -E "OK|VIOLATION|UNDECIDED|failed obligation|KNOWN|undecided" | cut -c1-300 | head -8; echo "rc=${PIPESTATUS[0]}")
